@@ -662,10 +662,17 @@ func (ex *Exec) evalBinary(env *SpecEnv, e *SExpr) Val {
 		}
 		return bval(eq)
 	}
-	if !isNumeric(a) || !isNumeric(b) {
-		if isStringT(a.T) && isStringT(b.T) && op == "<" {
+	if a.T != nil && b.T != nil && isStringT(a.T) && isStringT(b.T) && len(a.L) == 1 {
+		switch op {
+		case "<":
 			return bval(UF("strlt", SBool, a.S(), b.S()))
+		case ">":
+			return bval(UF("strlt", SBool, b.S(), a.S()))
+		case "+":
+			return Val{T: a.T, L: []*Term{ex.strConcat(a.S(), b.S())}}
 		}
+	}
+	if !isNumeric(a) || !isNumeric(b) {
 		sfail("operator %s on %v and %v", op, a.T, b.T)
 	}
 	x, y := a.S(), b.S()
